@@ -5,5 +5,5 @@ P="$1"; PROP="$2"; shift 2
 scratch=$(mktemp -d /tmp/fv-try-XXXXXX)
 rsync -a --exclude .git --exclude '__pycache__' --exclude _mutant /repo/ "$scratch/repo/"
 (cd "$scratch/repo" && patch -p1 -s < "$P") || { echo "patch failed"; rm -rf "$scratch"; exit 2; }
-FACTOSIM_REPO="$scratch/repo" ./check "$PROP" --tier quick --no-evidence "$@" 2>&1 | grep "^$PROP\|^VIOLATION\|classes\|HARNESS" | head -6
+FACTOSIM_REPO="$scratch/repo" ./check "$PROP" --tier ${TIER:-quick} --no-evidence "$@" 2>&1 | grep "^$PROP\|^VIOLATION\|classes\|HARNESS" | head -6
 rm -rf "$scratch"
